@@ -143,6 +143,24 @@ class Evaluator:
             self._call_aliases = out
         return self._call_aliases
 
+    def method_sig(self, name: str):
+        """parameter names (without self) of the repository methods called `name`, when every class that defines it uses the same names in the same order:
+        then `x.name(a, p=b)` can be read positionally whatever x is"""
+        if not hasattr(self, "_msig"):
+            self._msig = {}
+        if name not in self._msig:
+            sigs = set()
+            for cis in self.prog.class_index.values():
+                for ci in cis:
+                    fn = ci.methods.get(name)
+                    if fn is not None:
+                        ps = [a.arg for a in fn.args.posonlyargs + fn.args.args]
+                        if not _is_static(fn) and ps:
+                            ps = ps[1:]
+                        sigs.add((tuple(ps), fn.args.vararg is not None))
+            self._msig[name] = list(sigs)[0][0] if len(sigs) == 1 and not list(sigs)[0][1] else None
+        return self._msig[name]
+
     def fluent(self):
         """GenerativeFunction's fluent forwarders, read off their bodies: `def m(self, p..): return genjax.g(self, p..)` and
         `def m(self, p..): return genjax.g(k=p, ..)(self)`.  -> ({g: (m, params)} for the direct form, {g: (m, {k: p}, params)} for the decorator form).
@@ -1300,6 +1318,15 @@ class _Ctx:
                 if len(args) <= len(sig) and set(kwargs) <= set(sig[len(args):]) and all(n in kwargs for n in sig[len(args):len(args) + len(kwargs)]):
                     args = list(args) + [kwargs[n] for n in sig[len(args):len(args) + len(kwargs)]]
                     kwargs = {}
+        if kwargs and is_t(f, "attr") and f[1] != P("self") and "**" not in kwargs and not self._GFI_SIG.get(f[2]) and not any(is_t(x, "star") for x in args):
+            sig = ev.method_sig(f[2])
+            if sig:
+                args, kwargs = list(args), dict(kwargs)
+                for pn_ in sig[len(args):]:
+                    if pn_ in kwargs:
+                        args.append(kwargs.pop(pn_))
+                    else:
+                        break
         if kwargs and is_t(f, "attr") and self._GFI_SIG.get(f[2]) and "**" not in kwargs:
             sig = self._GFI_SIG[f[2]]
             if len(args) <= len(sig) and set(kwargs) <= set(sig[len(args):]) and all(n in kwargs for n in sig[len(args):len(args) + len(kwargs)]):
